@@ -61,6 +61,25 @@ def election(chk, repo):
     chk.ob("R23.1", sym, "a collision re-draws the ethertype", ok,
            hs[0] if hs else f, "except FileExistsError: new random "
            "ethertype, try again")
+    # somebody else's lock file is never touched: on a collision the only
+    # reaction is another ethertype
+    fs = [c for h in hs for c in calls_in(h) if (dotted(c.func) or "") in (
+        "os.remove", "os.unlink", "os.rename", "os.replace", "shutil.rmtree",
+        "os.rmdir", "os.truncate")]
+    for h in hs:
+        for c in calls_in(h):
+            q = resolve_callee(repo, c)
+            if q and repo.has(q) and isinstance(repo.get(q), FUNC):
+                fs += [x for x in calls_in(repo.get(q)) if (
+                    dotted(x.func) or "") in ("os.remove", "os.unlink",
+                                              "os.rename", "os.replace")]
+    chk.ob("R23.1", sym, "a lock file that exists is left alone", not fs,
+           fs[0] if fs else (hs[0] if hs else f),
+           f"`{unparse(fs[0])[:50]}` in the collision handler: whether the "
+           f"file is stale is decided before the removal and nothing ties "
+           f"the two together, so a file that another starter has just "
+           f"re-created for itself is removed and two participants end up "
+           f"with one ethertype" if fs else "collision -> new ethertype")
     ex = find("os.path.exists($p)", f) + find("os.path.isfile($p)", f)
     chk.ob("R23.1", sym, "no existence test stands in for the exclusive "
            "open", not ex, ex[0][0] if ex else f, "check-then-act")
@@ -133,11 +152,46 @@ def election(chk, repo):
            "before the caller runs", ok, f, "LockFile / FMMULock")
 
 
-def lock_state(cfg, fdname):
+def _lock_wrapper(repo, func, expr, fdname):
+    """is `expr` a call self.<m>(...) of a @contextmanager method that takes
+    LOCK_EX on fd before its yield and LOCK_UN after it (Min et al.: a
+    wrapper counts as the operation)"""
+    if repo is None or not (isinstance(expr, ast.Call) and isinstance(
+            expr.func, ast.Attribute) and isinstance(
+                expr.func.value, ast.Name) and expr.func.value.id == "self"):
+        return False
+    ci = repo.enclosing_class(func)
+    if ci is None:
+        return False
+    owner, m = repo.lookup(ci, expr.func.attr)
+    if m is None or not isinstance(m, FUNC) or not any(
+            "contextmanager" in unparse(d) for d in m.decorator_list):
+        return False
+    ys = [y for y in walk_no_nested(m) if isinstance(y, ast.Yield)]
+    if len(ys) != 1:
+        return False
+    ex = [c for c, b in find("fcntl.lockf($fd, $flags, $*r)", m)
+          if unparse(b["fd"]) == fdname and "LOCK_EX" in unparse(b["flags"])]
+    un = [c for c, b in find("fcntl.lockf($fd, $flags, $*r)", m)
+          if unparse(b["fd"]) == fdname and "LOCK_UN" in unparse(b["flags"])]
+    return bool(ex) and bool(un) and all(
+        c.lineno < ys[0].lineno for c in ex) and all(
+        c.lineno > ys[0].lineno for c in un)
+
+
+def lock_state(cfg, fdname, repo=None, func=None):
     """for every node: is a LOCK_EX of fd held on every path to it?
     forward must-analysis"""
     def kind(n):
         if n.expr is None:
+            return None
+        if n.kind == "with_enter" and _lock_wrapper(repo, func, n.expr,
+                                                    fdname):
+            return "ex"
+        if n.kind == "with_exit" and _lock_wrapper(repo, func, n.expr,
+                                                   fdname):
+            return "un"
+        if n.kind in ("with_enter", "with_exit"):
             return None
         for c, b in find("fcntl.lockf($fd, $flags, $*r)", n.expr):
             if unparse(b["fd"]) != fdname:
@@ -171,13 +225,41 @@ def bitmap(chk, repo):
         f = repo.func(sym)
         chk.analysed(sym)
         cfg = CFG(f, raises="call")
-        held = lock_state(cfg, "self.fd")
+        held = lock_state(cfg, "self.fd", repo, f)
         writes = [n for n in cfg.nodes if n.expr is not None and (
             find("os.write(self.fd, $*a)", n.expr) or find(
                 "os.pwrite(self.fd, $*a)", n.expr) or find(
                     "os.ftruncate(self.fd, $*a)", n.expr))]
         chk.floor("R23.2", f"writes to the shared file in {meth}",
-                  len(writes), 1 if meth == "remove" else 3)
+                  len(writes), 1)
+        if meth == "__init__":
+            # the free test and the claim are one critical section
+            tests = [n for n in cfg.nodes if n.kind == "test" and isinstance(
+                n.stmt, ast.While) and any(isinstance(x, ast.BinOp)
+                                           and isinstance(x.op, ast.BitAnd)
+                                           for x in ast.walk(n.expr))]
+            need(len(tests) == 1, f"{sym}: the search for a free window "
+                                  f"was not found")
+            tn = tests[0]
+            claims = [n for n in writes if "pwrite" in unparse(n.expr)
+                      and tn in cfg.coreachable(n)]
+            need(claims, f"{sym}: the write that marks the window was not "
+                         f"found")
+            cl = claims[-1]
+            unl = [m_ for m_ in cfg.between(tn, cl) if m_.expr is not None
+                   and (find("fcntl.lockf(self.fd, fcntl.LOCK_UN, $*r)",
+                             m_.expr) or (m_.kind == "with_exit" and
+                                          _lock_wrapper(repo, f, m_.expr,
+                                                        "self.fd")))]
+            ok = bool(held[tn.id]) and bool(held[cl.id]) and not unl
+            chk.ob("R23.2", sym, "the window is tested free and marked "
+                   "under one hold of the lock", ok, tn.stmt,
+                   "the bitmap the search looks at was read under a lock "
+                   "that is no longer held when the bit is set: two "
+                   "joiners that draw the same window both find it free "
+                   "and both mark it" if not ok else
+                   "search loop and pwrite lie between one LOCK_EX and its "
+                   "LOCK_UN")
         for k, n in enumerate(writes):
             txt = " ".join(unparse(n.expr).split())[:50]
             facts = [unparse(e) for e, t in path_facts(n.stmt)]
@@ -202,7 +284,9 @@ def bitmap(chk, repo):
             "fcntl.lockf(self.fd, fcntl.LOCK_UN)", n.expr)]
         exs = [n for n in cfg.nodes if n.expr is not None and find(
             "fcntl.lockf(self.fd, fcntl.LOCK_EX)", n.expr)]
-        ok = bool(exs) and all(cfg.must_pass(
+        wrapped = any(n.kind == "with_enter" and _lock_wrapper(
+            repo, f, n.expr, "self.fd") for n in cfg.nodes)
+        ok = (bool(exs) or wrapped) and all(cfg.must_pass(
             e, lambda m: m in uns, first_edge="next") for e in exs)
         chk.ob("R23.2", sym, "the lock is released on every path", ok, f,
                "unlock in a finally")
